@@ -337,12 +337,12 @@ theorem loop_keys (flt : Option Filter) : ∀ (tests : List Script) (gs : Bool) 
       have hst : stFrom s2 [Ev.groupEnded ms] = onGroupEnded s2 ms := by
         simp [stFrom_cons, stFrom_nil, step, hc2]
       have ih := loop_keys flt rest true (if gs = true then r.clock else g0) (bodyR flt t r) (onGroupEnded s2 ms)
-        (by simp [onGroupEnded, reset, hc2]) (by intro _; simp [onGroupEnded, reset])
+        (by simp [onGroupEnded, reset_eq, hc2]) (by intro _; simp [onGroupEnded, reset_eq])
       rw [hrep, hst]
       refine ⟨?_, ih.2⟩
       rw [List.flatMap_append, ih.1]
       simp only [List.flatMap_cons, List.flatMap_nil, List.append_nil, reportOf_keys, hkeys]
-      simp only [onGroupEnded, reset, List.reverse_nil, List.map_nil, List.nil_append, List.filter_cons]
+      simp only [onGroupEnded, reset_eq, List.reverse_nil, List.map_nil, List.nil_append, List.filter_cons]
       split <;> simp
 
 /-! ## one report per group -/
@@ -431,8 +431,8 @@ theorem loop_groups (flt : Option Filter) : ∀ (tests : List Script) (gs : Bool
       have hst : stFrom s2 [Ev.groupEnded ms] = onGroupEnded s2 ms := by
         simp [stFrom_cons, stFrom_nil, step, hc2]
       rw [hrep, hst, List.map_append, loop_groups flt rest true _ _ (onGroupEnded s2 ms)
-        (by simp [onGroupEnded, reset, hc2]) (by intro _; simp [onGroupEnded, reset]), groupRuns_cons_end t rest he]
-      have h0 : (onGroupEnded s2 ms).nodesRev.length = 0 := by simp [onGroupEnded, reset]
+        (by simp [onGroupEnded, reset_eq, hc2]) (by intro _; simp [onGroupEnded, reset_eq]), groupRuns_cons_end t rest he]
+      have h0 : (onGroupEnded s2 ms).nodesRev.length = 0 := by simp [onGroupEnded, reset_eq]
       rw [h0]
       have hadd : ∀ l : List Nat, addToHead 0 l = l := by intro l; cases l <;> simp [addToHead]
       rw [hadd]
